@@ -156,8 +156,8 @@ ITEMS = location_types() + budget_types() + error_types() + [
          props=['C05', 'C16', 'C01'],
          rewrites=[(r"fn next_element_seed<T>\(&mut self, seed: T\) -> Result<Option<T::Value>, Error>\s*where\s*T: de::DeserializeSeed<'de>,",
                     'fn next_element_seed(&mut self, seed: ElemSeed) -> Result<Option<ElemVal>, Error>', 1, 'R9'),
-                   (r'let de = YamlDeserializer::new\(self\.ev, self\.cfg\);\s*seed\.deserialize\(de\)\.map\(Some\)\.map_err\(\|e\| \{\s*attach_alias_locations_if_missing\(e, reference_location, defined_location\)\s*\}\)',
-                    'seed_deserialize_element(seed, self.ev, self.cfg, reference_location, defined_location)', 1, 'R8+R18')],
+                   (r'let de = YamlDeserializer::new\(self\.ev, self\.cfg\);\s*seed\.deserialize\(de\)\.map\(Some\)\.map_err\(\|e\| \{\s*attach_alias_locations_if_missing\(e, (\w+), (\w+)\)\s*\}\)',
+                    r'{ let __use_site = \1; let __def_site = \2; seed_deserialize_element(seed, self.ev, self.cfg, __use_site, __def_site) }', 1, 'R8+R18')],
          ensures=[('C05:a_sequence_ends_exactly_at_its_end_event_which_is_left_for_the_caller', '''({ let rest0 = old(self).ev.rest();
                 match r {
                     Ok(None) => rest0.len() > 0 && rest0[0] is SeqEnd && final(self).ev.rest() == rest0,
@@ -167,8 +167,8 @@ ITEMS = location_types() + budget_types() + error_types() + [
                 rest0.len() > 0 && !(rest0[0] is SeqEnd) && r is Ok ==>
                     exists|rl: Location| r == #[trigger] elem_seed_result(seed, rest0, old(self).cfg, rl, rest0[0].spec_location()) })'''),
                   ('config_unchanged', 'final(self).cfg == old(self).cfg')],
-         proofs=[dict(before='seed_deserialize_element(seed, self.ev, self.cfg, reference_location, defined_location)', label='C16:an_element_error_site_is_the_element_or_the_alias_token_that_stands_for_it',
-                      text='assert(self.ev.rest().len() > 0 && reference_location == spec_use_site(self.ev.use_site_override(), self.ev.rest()[0]) && defined_location == self.ev.rest()[0].spec_location());')],
+         proofs=[dict(before='seed_deserialize_element(seed, self.ev, self.cfg, __use_site, __def_site)', label='C16:an_element_error_site_is_the_element_or_the_alias_token_that_stands_for_it',
+                      text='assert(self.ev.rest().len() > 0 && __use_site == spec_use_site(self.ev.use_site_override(), self.ev.rest()[0]) && __def_site == self.ev.rest()[0].spec_location());')],
          canaries=['C05:a_sequence_ends_exactly_at_its_end_event_which_is_left_for_the_caller']),
     # ---- booleans (C06) ----
     dict(src='src/parse_scalars.rs', path='fn parse_yaml11_bool', props=['C06', 'C01'],
@@ -442,4 +442,24 @@ ITEMS = location_types() + budget_types() + error_types() + [
                     if rest0.len() > 0 && rest0[0] is MapStart { rest0.len() > 1 && rest0[1] is MapEnd }
                     else { rest0.len() == 0 || rest0[0] is MapEnd || rest0[0] is SeqEnd || unit_scalar(rest0[0]) }) })''')],
         canaries=['C05:a_unit_struct_is_an_empty_mapping_or_a_unit']),
+]
+# ---- one-line delegations of the format side (C05: a struct is read as a mapping and as nothing else, and so on) ----
+_BYTES = [x for x in ITEMS if x and x.get('id') == 'YamlDeserializer::deserialize_bytes'][0]
+ITEMS += [
+    dict(src=D, path=YD + 'fn deserialize_struct', id='YamlDeserializer::deserialize_struct',
+        impl_header="impl<'de, 'e> YamlDeserializer<'de, 'e>", props=['C05', 'C01'],
+        pre_rewrites=[(r"fn deserialize_struct<V: Visitor<'de>>\(\s*(mut )?self,\s*_name: &'static str,\s*_fields: &'static \[&'static str\],\s*visitor: V,\s*\) -> Result<V::Value, Self::Error>",
+                       r"fn deserialize_struct(\1self, _name: &'static str, _fields: &'static [&'static str], visitor: Vis) -> Result<VisVal, Error>", 1, 'R9')],
+        ensures=[('C05:a_struct_is_read_exactly_like_a_mapping_and_from_nothing_else', 'r == vis_map(visitor, old(self.ev).rest(), self.cfg)')],
+        canaries=['C05:a_struct_is_read_exactly_like_a_mapping_and_from_nothing_else']),
+    dict(src=D, path=YD + 'fn deserialize_byte_buf', id='YamlDeserializer::deserialize_byte_buf',
+        impl_header="impl<'de, 'e> YamlDeserializer<'de, 'e>", props=['C06', 'C05', 'C01'],
+        pre_rewrites=[(r"fn deserialize_byte_buf<V: Visitor<'de>>\((mut )?self, visitor: V\) -> Result<V::Value, Self::Error>",
+                       r'fn deserialize_byte_buf(\1self, visitor: Vis) -> Result<VisVal, Error>', 1, 'R9')],
+        ensures=[(('C06:an_owned_byte_buffer_is_read_exactly_like_borrowed_bytes:' + lbl.split(':', 1)[-1]) if i == 0 else lbl, txt) for i, (lbl, txt) in enumerate(_BYTES['ensures'])]),
+    dict(src=D, path=YD + 'fn deserialize_identifier', id='YamlDeserializer::deserialize_identifier',
+        impl_header="impl<'de, 'e> YamlDeserializer<'de, 'e>", props=['C05', 'C01'],
+        pre_rewrites=[(r"fn deserialize_identifier<V: Visitor<'de>>\((mut )?self, visitor: V\) -> Result<V::Value, Self::Error>",
+                       r'fn deserialize_identifier(\1self, visitor: Vis) -> Result<VisVal, Error>', 1, 'R9')],
+        ensures=[('C05:a_field_or_variant_name_is_read_exactly_like_a_borrowed_string', 'r == vis_as_str(visitor, old(self.ev).rest(), self.cfg)')]),
 ]
